@@ -89,3 +89,7 @@ func verifC17(calls int) {
 
 func verifH_C17_Seq3() { verifC17(3) }
 func verifH_C17_Seq4() { verifC17(4) }
+
+// the same sequences over mathematical integers (no wrap-around): arithmetic the bit-vector back end
+// cannot decide (e.g. a remainder by 10^9 introduced by a change) stays decidable here
+func verifH_C17_Seq3_int() { verifH_C17_Seq3() }
